@@ -16,4 +16,4 @@ Extraction "model.ml"
   gbin gxbin gdive gxdive gdivreme gxdivreme gint gxint gun gpow gmulsign gsplit gtrunc gfloor gceil ground heval_gen heval_xgen
   gen_reduce gen_RBig_from_parts gen_Relaxed_from_parts gen_RBig_from_parts_signed gen_Relaxed_from_parts_signed
   gen_RBig_is_zero gen_RBig_is_one gen_RBig_is_int gen_Relaxed_is_zero gen_Relaxed_is_one
-  from_float_asis from_float_spec gen_ratio_iter_is_a_module xfrom_parts_words.
+  from_int_asis from_float_asis from_float_spec gen_ratio_iter_is_a_module xfrom_parts_words.
